@@ -149,6 +149,46 @@ theorem add_same_inv (c : IntTy) (hc : c ∈ IntTy.all) (k1 k2 : Nat) (v1 v2 s :
         injection hv with hv
         rw [← hv, ex, ey]
 
+/-- A clean mixed-unit subtraction of two operands of the same rep is the exact difference of the scaled operands. -/
+theorem sub_same_inv (c : IntTy) (hc : c ∈ IntTy.all) (k1 k2 : Nat) (v1 v2 s : Int)
+    (h : Mixed.sub c c k1 k2 v1 v2 = ⟨.ok s, false, false⟩) : s = v1 * k1 - v2 * k2 := by
+  have hcc : IntTy.common c c = c := by unfold IntTy.common; simp
+  have hpm := promote_mem c hc
+  unfold Mixed.sub usingCommon at h
+  simp only [hcc] at h
+  cases ha : (castToCommon c c k1 v1).val with
+  | ub w => rw [ha] at h; simp at h
+  | ok x =>
+    cases hb : (castToCommon c c k2 v2).val with
+    | ub w => rw [ha, hb] at h; simp at h
+    | ok y =>
+      rw [ha, hb] at h
+      simp only [] at h
+      injection h with hv hw hn
+      simp only [Bool.or_eq_false_iff, Bool.or_false] at hw hn
+      have ea : castToCommon c c k1 v1 = ⟨.ok x, false, false⟩ := ar_eta _ _ ha hw.1.1 hn.1
+      have eb : castToCommon c c k2 v2 = ⟨.ok y, false, false⟩ := ar_eta _ _ hb hw.1.2 hn.2
+      have ex := castToCommon_inv c c (by rw [hcc]; exact hc) hc k1 v1 x ea
+      have ey := castToCommon_inv c c (by rw [hcc]; exact hc) hc k2 v2 y eb
+      have hsw := hw.2
+      unfold subIn at hv hsw
+      cases hs : c.promote.signed with
+      | true =>
+        rw [hs] at hv hsw
+        simp only [if_true] at hv hsw
+        by_cases hr : c.promote.inRange (x - y)
+        · rw [if_pos hr] at hv
+          injection hv with hv
+          rw [← hv, ex, ey]
+        · rw [if_neg hr] at hv; simp at hv
+      | false =>
+        rw [hs] at hv hsw
+        simp only [Bool.false_eq_true, if_false] at hv hsw
+        have hr : c.promote.inRange (x - y) := by simpa using hsw
+        rw [wrap_of_inRange _ hpm _ hr] at hv
+        injection hv with hv
+        rw [← hv, ex, ey]
+
 end Mixed
 end Au
 
